@@ -120,8 +120,14 @@ def _(data: polars.Series, **kwargs) -> NoReturn:
 
 @extract_weights.register
 def _(data: polars.Series, array_mask: Optional[np.ndarray] = None) -> np.ndarray:
-    array, _ = extract_1d_array(data, dropna=False)
-    return extract_weights(array, array_mask=array_mask)  # type: ignore
+    if data.dtype not in NUMERIC_POLARS_DTYPES:
+        raise ValueError(
+            f"Cannot extract float array from type {data.dtype}, must be int-like or float-like"
+        )
+    if data.is_null().any():
+        raise ValueError("Cannot create histogram from series with nulls")
+    # Keep the dtype of the series (integer weights give an integer histogram)
+    return extract_weights(data.to_numpy(allow_copy=True), array_mask=array_mask)  # type: ignore
 
 
 @extract_weights.register
